@@ -2,9 +2,9 @@ package main
 
 import (
 	"fmt"
-	"os"
 	"go/ast"
 	"go/types"
+	"os"
 	"regexp"
 	"strings"
 
